@@ -32,7 +32,35 @@ def load_module(relpath):
 
 
 def find_def(relpath, qualname):
-    """Return (node, source_text) for ``Class.method`` / ``func`` in relpath."""
+    """Return (node, source_text) for ``Class.method`` / ``func`` in relpath.  A method that the class does not define
+    itself is looked up in its base classes defined in the same file (it is the code that runs for that class: a method
+    pulled up into a base class is still found)."""
+    try:
+        return _find_def(relpath, qualname)
+    except ExtractError:
+        parts = qualname.split(".")
+        if len(parts) == 2:
+            seen = set()
+            todo = [parts[0]]
+            while todo:
+                c = todo.pop(0)
+                if c in seen:
+                    continue
+                seen.add(c)
+                try:
+                    bases = class_bases(relpath, c)
+                except ExtractError:
+                    continue
+                for b in bases:
+                    b = b.split(".")[-1]
+                    try:
+                        return _find_def(relpath, b + "." + parts[1])
+                    except ExtractError:
+                        todo.append(b)
+        raise
+
+
+def _find_def(relpath, qualname):
     src, tree = load_module(relpath)
     parts = qualname.split(".")
     body = tree.body
